@@ -139,6 +139,43 @@ fn exec_one(sc: &Scenario, ctx: &mut Ctx) -> Vec<Violation> {
         0,
     );
     let kind = sc.note.split(" | ").next().unwrap_or("?").to_string();
+    if ep == EP_RAW_LZMA2 && sc.has_b("base") && !v.is_ok() {
+        // the same malformed stream offered again to the same decoder object
+        // (after a valid stream, with and without reset) must still be refused
+        use lzma_rs::decompress::raw::Lzma2Decoder;
+        let again = crate::env::guarded(|| {
+            let mut d = Lzma2Decoder::new();
+            let mut sink = Vec::new();
+            let _ = d.decompress(&mut &sc.b("base")[..], &mut sink);
+            let mut verdicts = Vec::new();
+            for step in 0..3 {
+                let mut o = Vec::new();
+                let r = d.decompress(&mut &input[..], &mut o);
+                verdicts.push((r.is_ok(), o.len()));
+                if step == 0 {
+                    d.reset();
+                }
+            }
+            verdicts
+        });
+        ctx.stats.hit("probe.malformed_stream_offered_again_to_a_reused_decoder");
+        match again {
+            Err(p) => return vec![Violation::new("panic", &panic_locus(&p), p, sc)],
+            Ok(vs) => {
+                if let Some(i) = vs.iter().position(|x| x.0) {
+                    return vec![Violation::new(
+                        "accepts_malformed_framing",
+                        &kind,
+                        format!(
+                            "a fresh raw::Lzma2Decoder refuses this stream, but the same decoder object accepted it on attempt #{} after having refused it ({} bytes delivered) [{}]",
+                            i + 1, vs[i].1, sc.note
+                        ),
+                        sc,
+                    )];
+                }
+            }
+        }
+    }
     // the lenient reference: it knows exactly the rules C17 lists
     let lz2: Vec<u8>;
     let data: &[u8] = if ep == EP_XZ {
@@ -274,6 +311,9 @@ impl Property for C17 {
                 sc.set_b("input", build_xz(&plan).bytes);
             } else {
                 sc.set_b("input", bytes);
+                if ep == EP_RAW_LZMA2 && (kind == "bad_props" || kind == "bad_control") {
+                    sc.set_b("base", b.bytes.clone());
+                }
             }
             sc.note = format!("{} | {} | chunks: {}", kind, note, b.note);
             let key: &'static str = match kind {
